@@ -654,7 +654,7 @@ fn vk_c10_step_loud() {
 //@ domain: complete
 //@ functions: engine/search/move_picker.rs::MovePicker::new, engine/search/move_picker.rs::MovePicker::new_loud
 //@ timeout: 900
-//@ mem_gb: 6
+//@ mem_gb: 2
 //@ note: base case: a fresh picker (either constructor) satisfies the structural invariant and has yielded nothing
 #[kani::proof]
 #[kani::unwind(8)]
@@ -672,7 +672,7 @@ fn vk_c10_step_initial() {
 //@ obligation: C10.canary.stream
 //@ canary: true
 //@ timeout: 1500
-//@ mem_gb: 14
+//@ mem_gb: 4
 #[kani::proof]
 #[kani::unwind(6)]
 fn vk_c10_canary_stream() {
